@@ -11,6 +11,7 @@ package keeper
 // engine enumerates the orders; a native replay repeats the run) shows up as a difference.
 
 import (
+	"github.com/circlefin/noble-cctp/x/cctp/types"
 	"github.com/circlefin/noble-cctp/x/cctp/verifrt"
 )
 
@@ -66,4 +67,62 @@ func c18handler(idx int) {
 	}
 	verifrt.Cover("compared")
 	verifrt.Assert("C18/handler/outcome-independent-of-other-instances-and-of-repetition", same)
+}
+
+func init() {
+	verifrt.Register("Harness_C18_VerifierIndependentOfEarlierVerifications", Harness_C18_VerifierIndependentOfEarlierVerifications)
+	verifrt.Register("Harness_C18_VerdictNotRetainedAcrossAttesterSets", Harness_C18_VerdictNotRetainedAcrossAttesterSets)
+}
+
+// the replayable special case of the lemma below: an attestation by honest attester 1 is verified
+// against the set {attester 0}, then against {attester 1} (accepted), then against {attester 0} again
+func Harness_C18_VerdictNotRetainedAcrossAttesterSets() {
+	msg := verifrt.NondetBytes("m_message", 8)
+	a0, a1 := verifrt.HonestAttester(0), verifrt.HonestAttester(1)
+	verifrt.Assume(a0 != a1)
+	att := verifrt.HonestAttestationBy("m_attestation", msg, 1, 1)
+	verifrt.Assume(refAttestationValid(msg, att, []string{a1}, 1, 1))
+	set0 := []types.Attester{{Attester: a0}}
+	set1 := []types.Attester{{Attester: a1}}
+	e1 := VerifyAttestationSignatures(msg, append([]byte{}, att...), set0, 1)
+	ea := VerifyAttestationSignatures(msg, append([]byte{}, att...), set1, 1)
+	verifrt.Assume(ea == nil)
+	e2 := VerifyAttestationSignatures(msg, append([]byte{}, att...), set0, 1)
+	verifrt.Cover("compared")
+	verifrt.Assert("C18/verifier/verdict-not-retained-across-attester-sets", (e1 == nil) == (e2 == nil))
+}
+
+// the attestation verdict for (message, attestation, attester set, threshold) does not depend on what
+// was verified earlier in the same process against another attester set
+func Harness_C18_VerifierIndependentOfEarlierVerifications() {
+	msg := verifrt.NondetBytesOrNil("m_message", 8)
+	att := verifrt.NondetBytesOrNil("m_attestation", 65*2+1)
+	mk := func(prefix string) ([]types.Attester, []string, uint32) {
+		n := 1 + verifrt.NondetChoice(prefix+"n_att", 2)
+		var list []types.Attester
+		var names []string
+		for i := 0; i < n; i++ {
+			a := verifrt.NondetString(prefix+"att"+string(rune('0'+i)), attCap)
+			if i > 0 {
+				verifrt.Assume(names[i-1] < a)
+			}
+			names = append(names, a)
+			list = append(list, types.Attester{Attester: a})
+		}
+		t := verifrt.NondetU32(prefix + "threshold")
+		verifrt.Assume(verifrt.All(t >= 1, t <= uint32(n)))
+		return list, names, t
+	}
+	lb, nb, tb := mk("")
+	la, na, ta := mk("other_")
+	e1 := VerifyAttestationSignatures(msg, append([]byte{}, att...), lb, tb)
+	// the earlier verification by the other instance succeeded (assumed up front to keep its
+	// exploration small; C01 shows this is exactly when it returns nil)
+	verifrt.Assume(refAttestationValid(msg, att, na, ta, 2))
+	ea := VerifyAttestationSignatures(msg, append([]byte{}, att...), la, ta)
+	verifrt.Assume(ea == nil)
+	e2 := VerifyAttestationSignatures(msg, append([]byte{}, att...), lb, tb)
+	verifrt.ProbeAttestation("m_message", "m_attestation", "att", msg, att, nb, 2)
+	verifrt.Cover("compared")
+	verifrt.Assert("C18/verifier/verdict-independent-of-earlier-verifications", (e1 == nil) == (e2 == nil))
 }
